@@ -13,7 +13,11 @@ class Box(GymBox):
         elif type(x) is float:
             x = np.array([x], dtype=float)
         elif not isinstance(x, np.ndarray):
-            x = np.asarray(x, dtype=self.dtype)
+            point = np.asarray(x, dtype=self.dtype)
+            if np.issubdtype(self.dtype, np.integer) and \
+                    not np.array_equal(point, np.asarray(x, dtype=float)):
+                return False # A fractional part was cut off: not a point of an integer Box
+            x = point
 
         return bool(
             np.can_cast(x.dtype, self.dtype) and
